@@ -497,11 +497,13 @@ void note_active(Want &w, const ActiveSpans &a) {
 // oracle
 // =================================================================================================
 void check_value(vf::Ctx &c, const char *pos, const std::string &key, const WantVal &want, const SeenVal &got, const Sink &sink, bool after_scribble, const std::string &ctx) {
-  if (got.canon == want.canon && !(got.retained && sink.arena->freed())) return;
+  // (the simple exporter runs inside Emit, where pointers into the caller's storage are legitimate)
+  bool late = strcmp(sink.kind, "deferred") == 0;
+  if (got.canon == want.canon && !(late && got.retained)) return;
   std::string where = std::string(pos) + (key.empty() ? "" : " '" + vfq::printable(key, 20) + "'");
   // A pointer into the caller's storage shows up as the scribbled value (pass 1) or as an address inside a freed block (pass 2).
   bool dangling = got.retained || (after_scribble && want.src && got.canon == canon_of(want.src->value()) && !sink.arena->freed());
-  if (dangling && strcmp(sink.kind, "deferred") == 0) {
+  if (dangling && late) {
     std::string sig = std::string("C13:dangling:") + pos + ":" + got.kind + ":" + sink.kind;
     c.report(sig, ctx + ": the " + sink.kind + " exporter sees " + where + " (" + want.kind_name + ") = '" + vfq::printable(got.canon, 60) + "', emitted was '" + vfq::printable(want.canon, 60) +
                       "': the record refers to the caller's storage, which the caller has reused after Emit returned");
@@ -520,3 +522,559 @@ void check_component(vf::Ctx &c, const char *comp, bool is_explicit, bool any_ex
   else c.check(got == zero, std::string("C13:") + comp + ":not-zero-without-active-span", head + " although no span was active");
 }
 
+
+std::string canon(const SeenRec &s) {
+  std::string o = vf::sfmt("sev%d|", s.severity) + s.body.canon + "|";
+  for (auto &kv : s.attrs) o += kv.first + "=" + kv.second.canon + ";";
+  return o + vf::sfmt("|ts%lld|ev%lld:", (long long)s.ts, (long long)s.event_id) + s.event_name + "|" + s.tid + "-" + s.sid + vf::sfmt("-%02x", s.flags);
+}
+
+void check_record(vf::Ctx &c, const Fixture &fx, const Want &w, const SeenRec &s, const Sink &sink, bool after_scribble) {
+  const std::string &ctx = w.desc;
+  std::string k = sink.kind;
+  if (w.has_sev) c.check(s.severity == w.sev, "C13:severity:" + k, ctx + vf::sfmt(": severity %d exported, %d emitted", s.severity, w.sev));
+  if (w.has_body) check_value(c, "body", "", w.body, s.body, sink, after_scribble, ctx);
+  for (auto &kv : w.attrs) {
+    auto it = s.attrs.find(kv.first);
+    c.check(it != s.attrs.end(), "C13:attribute-lost:" + k, ctx + ": attribute '" + vfq::printable(kv.first, 20) + "' is missing at the " + k + " exporter");
+    check_value(c, "attr-value", kv.first, kv.second, it->second, sink, after_scribble, ctx);
+  }
+  for (auto &kv : s.attrs)
+    c.check(w.attrs.count(kv.first) > 0, "C13:attribute-invented:" + k,
+            ctx + ": attribute '" + vfq::printable(kv.first, 20) + "' = '" + vfq::printable(kv.second.canon, 40) + "' was never supplied (" + k + " exporter)");
+  if (w.has_ts) c.check(s.ts == w.ts, "C13:timestamp:" + k, ctx + vf::sfmt(": timestamp %lld exported, %lld emitted", (long long)s.ts, (long long)w.ts));
+  if (w.has_ev) {
+    c.check(s.event_id == w.ev_id, "C13:event-id:" + k, ctx + vf::sfmt(": event id %lld exported, %lld emitted", (long long)s.event_id, (long long)w.ev_id));
+    c.check(s.event_name == w.ev_name, "C13:event-name:" + k, ctx + ": event name '" + vfq::printable(s.event_name, 30) + "' exported, '" + vfq::printable(w.ev_name, 30) + "' emitted");
+  }
+  bool any = w.x_tid || w.x_sid || w.x_flg;
+  check_component(c, "trace-id", w.x_tid, any, w.active, s.tid, w.tid, w.a_tid, kZeroTid, sink, ctx);
+  check_component(c, "span-id", w.x_sid, any, w.active, s.sid, w.sid, w.a_sid, kZeroSid, sink, ctx);
+  check_component(c, "trace-flags", w.x_flg, any, w.active, vf::sfmt("%02x", s.flags), vf::sfmt("%02x", w.flg), vf::sfmt("%02x", w.a_flg), "00", sink, ctx);
+  c.check(s.resource == fx.want_resource, "C13:resource:" + k, ctx + ": exported with resource " + s.resource + ", the provider has " + fx.want_resource);
+  c.check(s.scope == fx.want_scope, "C13:scope:" + k, ctx + ": exported with scope " + s.scope + ", the logger has " + fx.want_scope);
+}
+
+// Common epilogue, called when every Emit has returned: counts, scribble (and free), deferred export, comparison.
+void finish(vf::Ctx &c, Fixture &fx, const std::vector<Want> &wants, bool free_mode, const char *nothing_sig, const std::string &desc) {
+  c.stage("after-emit");
+  auto count_check = [&](const Sink &s, size_t want_n) {
+    if (s.recs.size() == want_n) return;
+    std::string sig = nothing_sig ? std::string(nothing_sig) : std::string(s.recs.size() > want_n ? "C13:count:duplicated:" : "C13:count:lost:") + s.kind;
+    c.fail(sig, desc + vf::sfmt(": the %s exporter received %zu records for %zu effective emits", s.kind, s.recs.size(), want_n));
+  };
+  for (auto &s : fx.sinks) {
+    if (strcmp(s->kind, "simple") == 0) count_check(*s, wants.size());
+    else c.check(s->recs.empty(), "C13:harness", "deferred exporter ran early");
+  }
+  c.stage("scribble");
+  fx.scribble_all();
+  if (free_mode) fx.free_all();
+  c.stage("deferred-export");
+  fx.provider->ForceFlush();
+  c.step();
+  std::string st = desc.substr(0, desc.find(' ')) + "|";
+  for (auto &s : fx.sinks) {
+    count_check(*s, wants.size());
+    c.check(s->error.empty(), "C13:exporter-protocol", desc + ": " + s->error);
+    for (size_t i = 0; i < wants.size(); ++i) check_record(c, fx, wants[i], s->recs[i], *s, true);
+    st += s->kind;
+    for (auto &r : s->recs) st += "[" + canon(r) + "]";
+  }
+  c.state(st);
+  c.outcome(st);
+  c.sample(desc + " => " + vfq::printable(st, 400));
+}
+
+// ---- caller-side argument objects -------------------------------------------------------------------
+typedef std::vector<std::pair<nostd::string_view, AttributeValue>> KvVector;
+
+struct Keep {  // typed caller objects that are not arena blocks
+  std::vector<std::shared_ptr<void>> objs;
+};
+
+CallerValue *text_value(Fixture &fx, const std::string &text) {
+  CallerValue *v = fx.val(V_STR_EMPTY, 0);
+  v->vk = V_STR;
+  v->n = text.size();
+  v->p = static_cast<char *>(fx.arena.alloc(text.size()));
+  memcpy(v->p, text.data(), text.size());
+  return v;
+}
+nostd::string_view view_of(CallerValue *v) { return nostd::string_view(v->p, v->n); }
+
+// a heap KvVector whose keys and values live in caller storage; scribbled and (pass 2) freed after the emit
+KvVector *make_kv(Fixture &fx, std::shared_ptr<Keep> keep, const std::vector<std::pair<CallerValue *, CallerValue *>> &entries) {
+  auto kv = std::make_shared<KvVector>();
+  for (auto &e : entries) kv->emplace_back(view_of(e.first), e.second->value());
+  kv->shrink_to_fit();
+  keep->objs.push_back(kv);
+  KvVector *raw = kv.get();
+  fx.arena.note(raw->data(), raw->size() * sizeof(KvVector::value_type));
+  fx.extra_scribble.push_back([raw]() { for (auto &e : *raw) e = std::make_pair(nostd::string_view("zz", 2), AttributeValue((int64_t)-1)); });
+  return raw;
+}
+
+const int64_t kTs = 1700000000123456789ll;
+
+struct ArgSet {
+  EmitArgs a;
+  CallerValue *body, *k1, *k2, *k1b, *v1, *v2, *v3;
+  std::shared_ptr<Keep> keep = std::make_shared<Keep>();
+};
+void build_args(Fixture &fx, ArgSet &s) {
+  s.body = fx.val(V_STR, 0);
+  s.k1 = text_value(fx, "key.one"); s.k2 = text_value(fx, "key.two"); s.k1b = text_value(fx, "key.one");
+  s.v1 = fx.val(V_STR, 1); s.v2 = fx.val(V_I64, 2); s.v3 = fx.val(V_STR_LONG, 3);
+  KvVector *kv = make_kv(fx, s.keep, {{s.k1, s.v1}, {s.k2, s.v2}, {s.k1b, s.v3}});
+  auto view = std::make_shared<common::KeyValueIterableView<KvVector>>(*kv);
+  s.keep->objs.push_back(view);
+  auto ev = std::make_shared<logs::EventId>(77, "evt-name");
+  s.keep->objs.push_back(ev);
+  logs::EventId *evraw = ev.get();
+  fx.extra_scribble.push_back([evraw]() { for (char *q = evraw->name_.get(); *q; ++q) *q = '#'; evraw->id_ = -1; });
+  s.a.sev = logs::Severity::kWarn;
+  s.a.body = s.body->value();
+  s.a.attrs = view.get();
+  s.a.ts = common::SystemTimestamp(std::chrono::nanoseconds(kTs));
+  s.a.ev = evraw;
+  s.a.ctx = ctx_of(0xc1, 0x09);
+  s.a.tid = tid_of(0xd1);
+  s.a.sid = sid_of(0xe1);
+  s.a.flg = trace::TraceFlags(0x03);
+  EmitArgs *ap = &s.a;
+  std::shared_ptr<Keep> keep = s.keep;
+  fx.extra_scribble.push_back([ap]() {
+    ap->sev = logs::Severity::kTrace;
+    ap->body = AttributeValue((int64_t)-1);
+    ap->ts = common::SystemTimestamp(std::chrono::nanoseconds(1));
+    ap->ctx = ctx_of(0x11, 0);
+    ap->tid = tid_of(0x22);
+    ap->sid = sid_of(0x33);
+    ap->flg = trace::TraceFlags(0x40);
+  });
+  fx.extra_free.push_back([keep]() { keep->objs.clear(); });
+}
+void model_arg(Want &w, const ArgSet &s, int kind) {
+  switch (kind) {
+    case K_SEV: w.has_sev = true; w.sev = (int)logs::Severity::kWarn; break;
+    case K_BODY: w.has_body = true; w.body = want_of(s.body); break;
+    case K_ATTR: w.attrs["key.one"] = want_of(s.v3); w.attrs["key.two"] = want_of(s.v2); break;  // key.one repeated: last write wins
+    case K_TS: w.has_ts = true; w.ts = kTs; break;
+    case K_EV: w.has_ev = true; w.ev_id = 77; w.ev_name = "evt-name"; break;
+    case K_CTX: w.x_tid = w.x_sid = w.x_flg = true; w.tid = hex(tid_of(0xc1)); w.sid = hex(sid_of(0xc1)); w.flg = 0x09; break;
+    case K_TID: w.x_tid = true; w.tid = hex(tid_of(0xd1)); break;
+    case K_SID: w.x_sid = true; w.sid = hex(sid_of(0xe1)); break;
+    default: w.x_flg = true; w.flg = 0x03; break;
+  }
+}
+const char *kKindName[NK] = {"severity", "body", "attributes", "timestamp", "event-id", "span-context", "trace-id", "span-id", "trace-flags"};
+
+// ---- part A: every order of argument kinds -------------------------------------------------------------
+const auto kT0 = make_table<false, 0, 0>(std::make_index_sequence<1>{});
+const auto kT1 = make_table<false, 1, 0>(std::make_index_sequence<ipow(NK, 1)>{});
+const auto kT2 = make_table<false, 2, 0>(std::make_index_sequence<ipow(NK, 2)>{});
+const auto kT3 = make_table<false, 3, 0>(std::make_index_sequence<ipow(NK, 3)>{});
+const auto kR0 = make_table<true, 0, 0>(std::make_index_sequence<1>{});
+const auto kR1 = make_table<true, 1, 0>(std::make_index_sequence<ipow(NK, 1)>{});
+const auto kR2 = make_table<true, 2, 0>(std::make_index_sequence<ipow(NK, 2)>{});
+
+struct SiteRef { int n, i; bool rec; };
+std::vector<SiteRef> g_sites, g_sites_small;
+SiteFn lookup(const SiteRef &r) {
+  if (r.rec) return r.n == 0 ? kR0[r.i] : r.n == 1 ? kR1[r.i] : kR2[r.i];
+  switch (r.n) {
+    case 0: return kT0[r.i];
+    case 1: return kT1[r.i];
+    case 2: return kT2[r.i];
+    case 3: return kT3[r.i];
+    default: return site4(r.i);
+  }
+}
+std::string site_name(const SiteRef &r) {
+  std::string o = r.rec ? "EmitLogRecord(CreateLogRecord()" : "EmitLogRecord(";
+  for (int j = 0; j < r.n; ++j) o += std::string(j || r.rec ? ", " : "") + kKindName[digit(r.n, r.i, j)];
+  return o + ")";
+}
+void build_sites(bool thorough) {
+  for (int n = 0; n <= (thorough ? 4 : 3); ++n)
+    for (int i = 0; i < ipow(NK, n); ++i)
+      if (distinct(n, i)) g_sites.push_back({n, i, false});
+  for (int n = 0; n <= 2; ++n)
+    for (int i = 0; i < ipow(NK, n); ++i)
+      if (distinct(n, i)) g_sites.push_back({n, i, true});
+  for (auto &s : g_sites) if (s.n <= 1 && !s.rec) g_sites_small.push_back(s);
+}
+
+void run_orders(vf::Ctx &c) {
+  const SiteRef &site = g_sites[c.pick("site", (int)g_sites.size())];
+  int proccfg = c.pick("processors", 4);
+  int spancfg = c.pick("spans", kSpanCfgs);
+  Fixture fx(proccfg);
+  ArgSet args;
+  build_args(fx, args);
+  ActiveSpans spans;
+  setup_spans(spans, spancfg);
+  Want w;
+  w.desc = "A " + site_name(site) + " processors " + kProcCfgName[proccfg] + " spans " + kSpanCfgName[spancfg];
+  note_active(w, spans);
+  for (int j = 0; j < site.n; ++j) model_arg(w, args, digit(site.n, site.i, j));
+  SiteFn fn = lookup(site);
+  c.check(fn != nullptr, "C13:harness", "no call site for " + site_name(site));
+  c.stage("EmitLogRecord(args...)");
+  fn(*fx.logger, args.a);
+  c.step();
+  finish(c, fx, {w}, false, nullptr, w.desc);
+}
+
+// ---- part B: value alternatives and carrier types -----------------------------------------------------
+// Typed caller objects: scribble overwrites the characters in place, free deletes the object.
+std::string *heap_string(Fixture &fx, std::shared_ptr<Keep> keep, const std::string &text) {
+  auto s = std::make_shared<std::string>(text);
+  keep->objs.push_back(s);
+  std::string *raw = s.get();
+  fx.arena.note(raw, sizeof(std::string));
+  fx.arena.note(raw->data(), raw->size() + 1);
+  fx.extra_scribble.push_back([raw]() { for (char &ch : *raw) ch = scr(ch); });
+  return raw;
+}
+std::string scribbled(std::string s) { for (char &ch : s) ch = scr(ch); return s; }
+
+void run_values(vf::Ctx &c) {
+  int what = c.pick("what", 6);
+  int proccfg = c.pick("processors", 4);
+  bool free_mode = c.flip("free-after-emit");
+  Fixture fx(proccfg);
+  auto keep = std::make_shared<Keep>();
+  fx.extra_free.push_back([keep]() { keep->objs.clear(); });
+  Want w;
+  std::string d;
+  logs::Logger &lg = *fx.logger;
+  c.stage("EmitLogRecord(value)");
+  if (what == 0) {  // body: every AttributeValue alternative, passed as an AttributeValue lvalue
+    VK vk = (VK)c.pick("kind", NVK);
+    CallerValue *v = fx.val(vk, 0);
+    AttributeValue av = v->value();
+    w.has_body = true; w.body = want_of(v);
+    d = std::string("body=AttributeValue(") + kVKName[vk] + ")";
+    lg.EmitLogRecord(av);
+  } else if (what == 1) {  // body: C++ carrier types
+    int carrier = c.pick("carrier", 10);
+    w.has_body = true;
+    switch (carrier) {
+      case 0: { CallerValue *v = fx.val(V_CSTR, 0); const char *p = v->p; w.body = want_of(v); d = "body=const char*"; lg.EmitLogRecord(p); break; }
+      case 1: { CallerValue *v = fx.val(V_STR, 0); nostd::string_view sv(v->p, v->n); w.body = want_of(v); d = "body=nostd::string_view"; lg.EmitLogRecord(sv); break; }
+      case 2: { CallerValue *v = fx.val(V_STR_NUL, 0); nostd::string_view sv(v->p, v->n); w.body = want_of(v); d = "body=nostd::string_view with NUL, severity first"; lg.EmitLogRecord(logs::Severity::kInfo, sv); w.has_sev = true; w.sev = (int)logs::Severity::kInfo; break; }
+      case 3: case 4: {
+        std::string text = carrier == 3 ? "std-string-" + std::string(40, 'q') : "short";
+        std::string *s = heap_string(fx, keep, text);
+        w.body = WantVal{vf::sfmt("s:%zu:", text.size()) + text, nullptr, carrier == 3 ? "std::string (heap buffer)" : "std::string (short)"};
+        d = std::string("body=") + w.body.kind_name;
+        lg.EmitLogRecord(*s);
+        break;
+      }
+      case 5: { int v = 42; w.body = WantVal{"i:42", nullptr, "int"}; d = "body=int"; lg.EmitLogRecord(v); break; }
+      case 6: { bool v = true; w.body = WantVal{"b:1", nullptr, "bool"}; d = "body=bool"; lg.EmitLogRecord(v); break; }
+      case 7: { double v = 2.5; w.body = WantVal{"d:2.5", nullptr, "double"}; d = "body=double"; lg.EmitLogRecord(v); break; }
+      case 8: { int64_t v = -7; w.body = WantVal{"i:-7", nullptr, "int64_t"}; d = "body=int64_t, severity last"; lg.EmitLogRecord(v, logs::Severity::kFatal4); w.has_sev = true; w.sev = (int)logs::Severity::kFatal4; break; }
+      default: {
+        CallerValue *v = fx.val(V_SP_I64, 0);
+        nostd::span<const int64_t> sp(reinterpret_cast<const int64_t *>(v->p), v->n);
+        w.body = want_of(v); d = "body=nostd::span<const int64_t>";
+        lg.EmitLogRecord(sp);
+      }
+    }
+  } else if (what == 2) {  // attribute value: every alternative, through a KeyValueIterable
+    VK vk = (VK)c.pick("kind", NVK);
+    CallerValue *k = text_value(fx, "attr.key"), *v = fx.val(vk, 0);
+    KvVector *kv = make_kv(fx, keep, {{k, v}});
+    common::KeyValueIterableView<KvVector> view(*kv);
+    const common::KeyValueIterable &base = view;
+    w.attrs["attr.key"] = want_of(v);
+    d = std::string("attributes={attr.key: ") + kVKName[vk] + "} as KeyValueIterable";
+    lg.EmitLogRecord(base);
+  } else if (what == 3) {  // attribute list shapes x generic carriers
+    int shape = c.pick("shape", 5), carrier = c.pick("carrier", 4);
+    std::vector<std::pair<CallerValue *, CallerValue *>> es;
+    const char *shape_name = "";
+    switch (shape) {
+      case 0: shape_name = "{a:string,b:int64}"; es = {{text_value(fx, "a"), fx.val(V_STR, 1)}, {text_value(fx, "b"), fx.val(V_I64, 2)}}; break;
+      case 1: shape_name = "{a:first,a:second} (duplicate key)"; es = {{text_value(fx, "a"), fx.val(V_STR, 1)}, {text_value(fx, "a"), fx.val(V_STR, 2)}}; break;
+      case 2: shape_name = "{} (empty)"; break;
+      case 3: shape_name = "{'':string} (empty key)"; es = {{text_value(fx, ""), fx.val(V_STR, 1)}}; break;
+      default: shape_name = "{a:string,b:span-string,a:int64} (duplicate key, other type)"; es = {{text_value(fx, "a"), fx.val(V_STR, 1)}, {text_value(fx, "b"), fx.val(V_SP_STR, 2)}, {text_value(fx, "a"), fx.val(V_I64, 3)}};
+    }
+    for (auto &e : es) w.attrs[std::string(e.first->p, e.first->n)] = want_of(e.second);  // last write wins
+    KvVector *kv = make_kv(fx, keep, es);
+    const char *cn = "";
+    switch (carrier) {
+      case 0: { cn = "const KeyValueIterable&"; common::KeyValueIterableView<KvVector> view(*kv); const common::KeyValueIterable &base = view; lg.EmitLogRecord(logs::Severity::kDebug, base); break; }
+      // (an lvalue of a class derived from KeyValueIterable does not compile: the trait applies is_base_of to the reference type)
+      case 1: { cn = "KeyValueIterableView<vector>&& (MakeAttributes(container))"; lg.EmitLogRecord(logs::Severity::kDebug, common::MakeAttributes(*kv)); break; }
+      case 2: { cn = "vector<pair<string_view,AttributeValue>>"; lg.EmitLogRecord(logs::Severity::kDebug, *kv); break; }
+      default: { cn = "span<const pair<string_view,AttributeValue>>"; nostd::span<const std::pair<nostd::string_view, AttributeValue>> sp(kv->data(), kv->size()); lg.EmitLogRecord(logs::Severity::kDebug, sp); }
+    }
+    w.has_sev = true; w.sev = (int)logs::Severity::kDebug;
+    d = std::string("attributes=") + shape_name + " as " + cn;
+  } else if (what == 5) {  // event ids, timestamps and identities passed as temporaries
+    int carrier = c.pick("carrier", 6);
+    switch (carrier) {
+      case 0: d = "EventId(id, name) temporary"; lg.EmitLogRecord(logs::EventId(31, "temporary-name")); w.has_ev = true; w.ev_id = 31; w.ev_name = "temporary-name"; break;
+      case 1: d = "EventId(id) without a name"; c.stage("EmitLogRecord(EventId(id))"); lg.EmitLogRecord(logs::EventId(32)); w.has_ev = true; w.ev_id = 32; w.ev_name = ""; break;
+      case 2: d = "EventId(id, \"\")"; lg.EmitLogRecord(logs::EventId(33, "")); w.has_ev = true; w.ev_id = 33; w.ev_name = ""; break;
+      case 3: {
+        d = "std::chrono::system_clock::time_point";
+        std::chrono::system_clock::time_point tp{std::chrono::duration_cast<std::chrono::system_clock::duration>(std::chrono::nanoseconds(kTs))};
+        lg.EmitLogRecord(tp, logs::Severity::kTrace);
+        w.has_ts = true; w.ts = kTs; w.has_sev = true; w.sev = (int)logs::Severity::kTrace;
+        break;
+      }
+      case 4: d = "SystemTimestamp temporary, then trace-id/span-id/trace-flags temporaries";
+        lg.EmitLogRecord(common::SystemTimestamp(std::chrono::nanoseconds(kTs)), tid_of(0xd1), sid_of(0xe1), trace::TraceFlags(0x03));
+        w.has_ts = true; w.ts = kTs; w.x_tid = w.x_sid = w.x_flg = true; w.tid = hex(tid_of(0xd1)); w.sid = hex(sid_of(0xe1)); w.flg = 3;
+        break;
+      default: d = "SpanContext temporary after trace-id (the context wins), body literal";
+        lg.EmitLogRecord(tid_of(0xd1), ctx_of(0xc1, 0x09), "literal body");
+        w.x_tid = w.x_sid = w.x_flg = true; w.tid = hex(tid_of(0xc1)); w.sid = hex(sid_of(0xc1)); w.flg = 9;
+        w.has_body = true; w.body = WantVal{"s:12:literal body", nullptr, "string literal"};
+    }
+  } else {  // containers with their own element types
+    int carrier = c.pick("carrier", 4);
+    std::string t1 = "map-value-" + std::string(30, 'm'), t2 = "v2";
+    if (carrier == 0) {
+      auto m = std::make_shared<std::map<std::string, std::string>>();
+      (*m)["k1"] = t1; (*m)["k2"] = t2;
+      keep->objs.push_back(m);
+      auto *raw = m.get();
+      for (auto &kv : *raw) { fx.arena.note(kv.second.data(), kv.second.size() + 1); fx.arena.note(&kv.second, sizeof(std::string)); }
+      fx.extra_scribble.push_back([raw]() { for (auto &kv : *raw) for (char &ch : kv.second) ch = scr(ch); });
+      w.attrs["k1"] = WantVal{vf::sfmt("s:%zu:", t1.size()) + t1, nullptr, "std::string in std::map"};
+      w.attrs["k2"] = WantVal{vf::sfmt("s:%zu:", t2.size()) + t2, nullptr, "std::string in std::map"};
+      d = "attributes=std::map<std::string,std::string>";
+      lg.EmitLogRecord(*raw);
+    } else if (carrier == 1) {
+      auto m = std::make_shared<std::vector<std::pair<std::string, int64_t>>>();
+      m->emplace_back("n1", 11); m->emplace_back("n2", 22); m->emplace_back("n1", 33);
+      keep->objs.push_back(m);
+      auto *raw = m.get();
+      fx.extra_scribble.push_back([raw]() { for (auto &kv : *raw) { kv.second = -1; for (char &ch : kv.first) ch = scr(ch); } });
+      w.attrs["n1"] = WantVal{"i:33", nullptr, "int64_t"};
+      w.attrs["n2"] = WantVal{"i:22", nullptr, "int64_t"};
+      d = "attributes=std::vector<std::pair<std::string,int64_t>> with a repeated key";
+      lg.EmitLogRecord(*raw);
+    } else if (carrier == 2) {
+      CallerValue *v1 = fx.val(V_STR, 1), *v2 = fx.val(V_SP_DBL, 2), *k1 = text_value(fx, "i1"), *k2 = text_value(fx, "i2");
+      w.attrs["i1"] = want_of(v1); w.attrs["i2"] = want_of(v2);
+      d = "attributes=MakeAttributes({{i1,string},{i2,span-double}}), body last";
+      CallerValue *b = fx.val(V_STR, 3);
+      w.has_body = true; w.body = want_of(b);
+      lg.EmitLogRecord(common::MakeAttributes({{view_of(k1), v1->value()}, {view_of(k2), v2->value()}}), view_of(b));
+    } else {
+      auto m = std::make_shared<std::unordered_map<std::string, AttributeValue>>();
+      CallerValue *v1 = fx.val(V_CSTR, 1), *v2 = fx.val(V_U64, 2);
+      (*m)["u1"] = v1->value(); (*m)["u2"] = v2->value();
+      keep->objs.push_back(m);
+      auto *raw = m.get();
+      fx.extra_scribble.push_back([raw]() { for (auto &kv : *raw) kv.second = AttributeValue(false); });
+      w.attrs["u1"] = want_of(v1); w.attrs["u2"] = want_of(v2);
+      d = "attributes=std::unordered_map<std::string,AttributeValue>";
+      lg.EmitLogRecord(*raw);
+    }
+  }
+  c.step();
+  w.desc = "B " + d + " processors " + kProcCfgName[proccfg] + (free_mode ? " storage freed after Emit" : " storage scribbled after Emit");
+  finish(c, fx, {w}, free_mode, nullptr, w.desc);
+}
+
+// ---- part C: the record API -----------------------------------------------------------------------------
+const int kSetters = 12;
+void run_record(vf::Ctx &c) {
+  int maxlen = c.thorough() ? 4 : 3;
+  int proccfg = c.pick("processors", 4);
+  int spanmode = c.pick("span-timing", 4);  // 0 none, 1 active at creation and emit, 2 at creation only, 3 at emit only
+  int emit_mode = c.pick("emit", 2);        // 0 EmitLogRecord(record), 1 EmitLogRecord(record, severity)
+  int len = c.pick("setters", maxlen + 1);
+  Fixture fx(proccfg);
+  Want w;
+  std::string d = "C CreateLogRecord";
+  nostd::unique_ptr<logs::LogRecord> rec;
+  {
+    ActiveSpans at_create;
+    if (spanmode == 1 || spanmode == 2) at_create.push(ctx_of(0xa1, 1));
+    note_active(w, at_create);
+    c.stage("CreateLogRecord");
+    std::unique_ptr<ActiveSpans> later;
+    rec = fx.logger->CreateLogRecord();
+    c.check((bool)rec, "C13:create-null", "CreateLogRecord of an enabled logger returned null");
+    if (spanmode == 2) { ActiveSpans ended; std::swap(ended.scopes, at_create.scopes); }  // the span ends before the emit
+    ActiveSpans at_emit;
+    if (spanmode == 3) at_emit.push(ctx_of(0xb1, 1));
+    CallerValue *k1 = text_value(fx, "k1"), *k2 = text_value(fx, "k2");
+    for (int i = 0; i < len; ++i) {
+      int op = c.pick("setter", kSetters);
+      c.stage("setter");
+      switch (op) {
+        case 0: rec->SetSeverity(logs::Severity::kWarn); w.has_sev = true; w.sev = (int)logs::Severity::kWarn; d += ".SetSeverity"; break;
+        case 1: { CallerValue *v = fx.val(V_STR, i); rec->SetBody(v->value()); w.has_body = true; w.body = want_of(v); d += ".SetBody(string)"; break; }
+        case 2: { CallerValue *v = fx.val(V_I64, i); rec->SetBody(v->value()); w.has_body = true; w.body = want_of(v); d += ".SetBody(int64)"; break; }
+        case 3: { CallerValue *v = fx.val(V_STR, 10 + i); rec->SetAttribute(view_of(k1), v->value()); w.attrs["k1"] = want_of(v); d += ".SetAttribute(k1,string)"; break; }
+        case 4: { CallerValue *v = fx.val(V_I64, 20 + i); rec->SetAttribute(view_of(k1), v->value()); w.attrs["k1"] = want_of(v); d += ".SetAttribute(k1,int64)"; break; }
+        case 5: { CallerValue *v = fx.val(V_SP_STR, 30 + i); rec->SetAttribute(view_of(k2), v->value()); w.attrs["k2"] = want_of(v); d += ".SetAttribute(k2,span-string)"; break; }
+        case 6: rec->SetTimestamp(common::SystemTimestamp(std::chrono::nanoseconds(kTs + i))); w.has_ts = true; w.ts = kTs + i; d += ".SetTimestamp"; break;
+        case 7: { CallerValue *nm = text_value(fx, std::string("ev\0nt", 5)); rec->SetEventId(7 + i, view_of(nm)); w.has_ev = true; w.ev_id = 7 + i; w.ev_name = std::string("ev\0nt", 5); d += ".SetEventId(id,name)"; break; }
+        case 8: rec->SetEventId(100 + i); w.has_ev = true; w.ev_id = 100 + i; w.ev_name = ""; d += ".SetEventId(id)"; break;
+        case 9: rec->SetTraceId(tid_of(0xd1)); w.x_tid = true; w.tid = hex(tid_of(0xd1)); d += ".SetTraceId"; break;
+        case 10: rec->SetSpanId(sid_of(0xe1)); w.x_sid = true; w.sid = hex(sid_of(0xe1)); d += ".SetSpanId"; break;
+        default: rec->SetTraceFlags(trace::TraceFlags(0x03)); w.x_flg = true; w.flg = 0x03; d += ".SetTraceFlags"; break;
+      }
+      c.step();
+    }
+    c.stage("EmitLogRecord(record)");
+    if (emit_mode == 0) { fx.logger->EmitLogRecord(std::move(rec)); d += " EmitLogRecord(record)"; }
+    else { fx.logger->EmitLogRecord(std::move(rec), logs::Severity::kError); w.has_sev = true; w.sev = (int)logs::Severity::kError; d += " EmitLogRecord(record, severity)"; }
+    c.step();
+    c.check(!rec, "C13:record-not-consumed", "EmitLogRecord left the record with the caller");
+  }
+  static const char *timing[4] = {"no span", "span active at creation and emit", "span ended before the emit", "span started after creation"};
+  w.desc = d + " processors " + kProcCfgName[proccfg] + " " + timing[spanmode];
+  finish(c, fx, {w}, false, nullptr, w.desc);
+}
+
+// ---- part D: null records, disabled logger ---------------------------------------------------------------
+void run_nothing(vf::Ctx &c) {
+  int mode = c.pick("mode", 6);
+  int proccfg = c.pick("processors", 4);
+  int spancfg = c.pick("spans", 2);
+  Fixture fx(proccfg);
+  ArgSet args;
+  build_args(fx, args);
+  ActiveSpans spans;
+  setup_spans(spans, spancfg);
+  std::string d;
+  const char *sig = "C13:null-record-exported";
+  c.stage("emit-nothing");
+  switch (mode) {
+    case 0: d = "EmitLogRecord(null record)"; fx.logger->EmitLogRecord(nostd::unique_ptr<logs::LogRecord>()); break;
+    case 1: d = "EmitLogRecord(null record, severity, body, attributes)"; fx.logger->EmitLogRecord(nostd::unique_ptr<logs::LogRecord>(), args.a.sev, args.a.body, *args.a.attrs); break;
+    case 2: d = "disabled logger: EmitLogRecord(null record)"; fx.disabled_logger->EmitLogRecord(nostd::unique_ptr<logs::LogRecord>()); break;
+    case 3: {
+      const SiteRef &site = g_sites_small[c.pick("site", (int)g_sites_small.size())];
+      d = "disabled logger: " + site_name(site);
+      sig = "C13:disabled-logger-exported";
+      lookup(site)(*fx.disabled_logger, args.a);
+      break;
+    }
+    case 4: {
+      d = "disabled logger: CreateLogRecord + setters + EmitLogRecord(record)";
+      sig = "C13:disabled-logger-exported";
+      auto rec = fx.disabled_logger->CreateLogRecord();
+      if (rec) {
+        rec->SetSeverity(logs::Severity::kError);
+        rec->SetBody(args.a.body);
+        rec->SetAttribute("k", args.a.body);
+        rec->SetTraceId(args.a.tid);
+        rec->SetEventId(5, "name");
+      }
+      fx.disabled_logger->EmitLogRecord(std::move(rec));
+      break;
+    }
+    default:
+      d = "disabled logger: EmitLogRecord(severity, body, attributes, span-context)";
+      sig = "C13:disabled-logger-exported";
+      fx.disabled_logger->EmitLogRecord(args.a.sev, args.a.body, *args.a.attrs, args.a.ctx);
+  }
+  c.step();
+  d = "D " + d + " processors " + kProcCfgName[proccfg];
+  for (auto &s : fx.sinks) c.check(s->recs.empty(), sig, d + vf::sfmt(": the %s exporter received %zu records", s->kind, s->recs.size()));
+  fx.provider->ForceFlush();
+  for (auto &s : fx.sinks) c.check(s->recs.empty(), sig, d + vf::sfmt(": the %s exporter received %zu records after the flush", s->kind, s->recs.size()));
+  // the enabled logger of the same provider still works and its record is the only one
+  Want w;
+  w.desc = d + ", then the enabled logger emits";
+  note_active(w, spans);
+  model_arg(w, args, K_SEV);
+  model_arg(w, args, K_BODY);
+  c.stage("EmitLogRecord(args...)");
+  fx.logger->EmitLogRecord(args.a.sev, args.a.body);
+  c.step();
+  finish(c, fx, {w}, false, nullptr, w.desc);
+}
+
+// ---- part E: two emits -----------------------------------------------------------------------------------
+void emit_shape(vf::Ctx &c, Fixture &fx, int shape, int ordinal, Want &w, std::string &d) {
+  logs::Logger &lg = *fx.logger;
+  switch (shape) {
+    case 0: { CallerValue *b = fx.val(V_STR, ordinal); AttributeValue av = b->value(); lg.EmitLogRecord(logs::Severity::kInfo, av); w.has_sev = true; w.sev = (int)logs::Severity::kInfo; w.has_body = true; w.body = want_of(b); d += " Emit(severity,string)"; break; }
+    case 1: {
+      CallerValue *k = text_value(fx, "k"), *v = fx.val(V_SP_I64, ordinal);
+      auto keep = std::make_shared<Keep>();
+      KvVector *kv = make_kv(fx, keep, {{k, v}});
+      fx.extra_free.push_back([keep]() { keep->objs.clear(); });
+      lg.EmitLogRecord(*kv, tid_of(0xd1));
+      w.attrs["k"] = want_of(v); w.x_tid = true; w.tid = hex(tid_of(0xd1));
+      d += " Emit(attributes,trace-id)";
+      break;
+    }
+    case 2: { lg.EmitLogRecord(); d += " Emit()"; break; }
+    case 3: { lg.EmitLogRecord(ctx_of(0xc1, 0x09), common::SystemTimestamp(std::chrono::nanoseconds(kTs + ordinal))); w.x_tid = w.x_sid = w.x_flg = true; w.tid = hex(tid_of(0xc1)); w.sid = hex(sid_of(0xc1)); w.flg = 9; w.has_ts = true; w.ts = kTs + ordinal; d += " Emit(span-context,timestamp)"; break; }
+    default: {
+      auto rec = lg.CreateLogRecord();
+      CallerValue *b = fx.val(V_CSTR, ordinal);
+      rec->SetBody(b->value());
+      lg.EmitLogRecord(std::move(rec));
+      w.has_body = true; w.body = want_of(b);
+      d += " Create+SetBody(cstring)+Emit";
+    }
+  }
+  c.step();
+}
+void run_two(vf::Ctx &c) {
+  int proccfg = c.pick("processors", 4);
+  int s1 = c.pick("first", 5), span_between = c.pick("span-change", 3), s2 = c.pick("second", 5);
+  Fixture fx(proccfg);
+  std::string d = "E";
+  std::vector<Want> wants(2);
+  ActiveSpans outer;
+  if (span_between == 1) outer.push(ctx_of(0xb1, 1));  // active for both
+  note_active(wants[0], outer);
+  c.stage("first-emit");
+  emit_shape(c, fx, s1, 1, wants[0], d);
+  {
+    ActiveSpans inner;
+    if (span_between == 2) { inner.push(ctx_of(0xa1, 1)); note_active(wants[1], inner); d += " [span starts]"; }
+    else note_active(wants[1], outer);
+    c.stage("second-emit");
+    emit_shape(c, fx, s2, 2, wants[1], d);
+  }
+  d += std::string(" processors ") + kProcCfgName[proccfg];
+  wants[0].desc = d + " (first record)";
+  wants[1].desc = d + " (second record)";
+  finish(c, fx, wants, false, nullptr, d);
+}
+
+void setup(vf::Options &o) {
+  o.split_depth = 2;
+  o.deadline_s = o.thorough ? 1200 : 120;
+  o.table_bits = 23;
+  build_sites(o.thorough);
+  unsetenv("OTEL_RESOURCE_ATTRIBUTES");
+  unsetenv("OTEL_SERVICE_NAME");
+  sdkcommon::internal_log::GlobalLogHandler::SetLogHandler(
+      nostd::shared_ptr<sdkcommon::internal_log::LogHandler>(new sdkcommon::internal_log::NoopLogHandler()));
+}
+
+void run(vf::Ctx &c) {
+  vf::clock_reset();
+  vf::clock_set_autostep_ns(1000);
+  switch (c.pick("part", 5)) {
+    case 0: run_orders(c); break;
+    case 1: run_values(c); break;
+    case 2: run_record(c); break;
+    case 3: run_nothing(c); break;
+    default: run_two(c); break;
+  }
+}
+
+}  // namespace
+
+VF_MAIN("c13_logs", "C13", setup, run)
